@@ -40,6 +40,11 @@ var ParseFamilies = []Family{
 	{"argument-flood", false, func(n int) string { return "{a(" + rep("x:1 ", n) + ")}" }},
 	{"variable-flood", false, func(n int) string { return "query(" + rep("$v:Int ", n) + "){a}" }},
 	{"alias-chain", false, func(n int) string { return "{" + rep("a:", n) + "a}" }},
+	{"spread-flood", false, func(n int) string { return "{" + rep("...a ", n) + "b}" }},
+	{"inline-fragment-flood", false, func(n int) string { return "{" + rep("...{a}", n) + "b}" }},
+	{"typed-inline-fragment-operations", false, func(n int) string { return rep("{...on a{b}...c ...@d{e}}", n) + "{f}" }},
+	{"fragment-definition-flood", false, func(n int) string { return rep("fragment a on b{...c}", n) + "{d}" }},
+	{"list-item-flood", false, func(n int) string { return "{a(x:[" + rep("1 [2] {k:3} ", n) + "])}" }},
 	{"invalid-bytes", false, func(n int) string { return rep("\x00", n) }},
 	{"sdl-nest-type", true, func(n int) string { return "type A{f:" + rep("[", n) + "Int" + rep("]", n) + "}" }},
 	{"sdl-nest-default", true, func(n int) string { return "input A{f:Int=" + rep("[", n) + rep("]", n) + "}" }},
@@ -63,6 +68,16 @@ var ValidFamilies = []Family{
 	{"frag-fanout-introspection-deep", false, func(n int) string {
 		return "query Q { __schema { types { ...F0 } } } " + fanoutVia(n, "__Type", "fields { type {", "} }", "name")
 	}},
+	{"frag-fanout-introspection-undefined", false, func(n int) string {
+		return "query Q { __schema { types { ...F0 } } } " + fanout(n, "__Type", "name ...Nope")
+	}},
+	{"frag-fanout-introspection-cycle", false, func(n int) string {
+		return "query Q { __schema { types { ...F0 } } } " + fanout(n, "__Type", "name ...F0")
+	}},
+	{"frag-fanout-introspection-deep-undefined", false, func(n int) string {
+		return "query Q { __type(name: \"a\") { ...F0 } } " + fanoutVia(n, "__Type", "fields { type {", "} }", "name ...Nope ...Nope2")
+	}},
+	{"frag-fanout-undefined", false, func(n int) string { return "query Q { ...F0 } " + fanout(n, "Query", "id ...Nope") }},
 	{"frag-fanout-subscription", false, func(n int) string { return "subscription S { ...F0 } " + fanout(n, "Subscription", "tick") }},
 	{"frag-fanout-overlap", false, func(n int) string { return "query Q { pet { ...F0 } pet { ...F0 } } " + fanout(n, "Pet", "id") }},
 	{"frag-fanout-overlap-conflict", false, func(n int) string {
@@ -206,4 +221,78 @@ func itoa2(i int) string {
 		i /= 10
 	}
 	return string(d)
+}
+
+// SchemaFamilies: size-parametrised type systems, aimed at the schema loader.
+var SchemaFamilies = []Family{
+	// n layers of two interfaces, every interface implementing all interfaces of the lower layers, one object implementing all
+	{"iface-layers", true, func(n int) string {
+		var b strings.Builder
+		var lower []string
+		for l := 0; l < n; l++ {
+			var here []string
+			for k := 0; k < 2; k++ {
+				name := "I" + itoa2(l) + "x" + itoa2(k)
+				b.WriteString("interface " + name)
+				if len(lower) > 0 {
+					b.WriteString(" implements " + strings.Join(lower, " & "))
+				}
+				b.WriteString(" { id: ID }\n")
+				here = append(here, name)
+			}
+			lower = append(lower, here...)
+		}
+		b.WriteString("type Query implements " + strings.Join(lower, " & ") + " { id: ID }\n")
+		return b.String()
+	}},
+	// n interfaces that all implement each other (cyclic) — accepted or rejected, but in bounded work
+	{"iface-clique", true, func(n int) string {
+		var names []string
+		for i := 0; i < n; i++ {
+			names = append(names, "C"+itoa2(i))
+		}
+		var b strings.Builder
+		for _, nm := range names {
+			b.WriteString("interface " + nm + " implements " + strings.Join(names, " & ") + " { id: ID }\n")
+		}
+		b.WriteString("type Query implements " + strings.Join(names, " & ") + " { id: ID }\n")
+		return b.String()
+	}},
+	// a chain of interfaces, each implementing the previous one only (transitivity violated from the third on)
+	{"iface-chain", true, func(n int) string {
+		var b strings.Builder
+		b.WriteString("interface J0 { id: ID }\n")
+		for i := 1; i <= n; i++ {
+			b.WriteString("interface J" + itoa2(i) + " implements J" + itoa2(i-1) + " { id: ID }\n")
+		}
+		b.WriteString("type Query { id: ID }\n")
+		return b.String()
+	}},
+	// an input object chain of required self references through lists, unions of many members, wide enums
+	{"input-chain", true, func(n int) string {
+		var b strings.Builder
+		for i := 0; i < n; i++ {
+			b.WriteString("input N" + itoa2(i) + " { next: [N" + itoa2((i+1)%n) + "!]! = [] v: Int = " + itoa2(i) + " }\n")
+		}
+		b.WriteString("type Query { f(a: N0): Int }\n")
+		return b.String()
+	}},
+	{"union-wide", true, func(n int) string {
+		var b strings.Builder
+		var ms []string
+		for i := 0; i < n; i++ {
+			b.WriteString("type M" + itoa2(i) + " { id: ID }\n")
+			ms = append(ms, "M"+itoa2(i))
+		}
+		b.WriteString("union U = " + strings.Join(ms, " | ") + "\ntype Query { u: U }\n")
+		return b.String()
+	}},
+	{"extension-flood", true, func(n int) string {
+		var b strings.Builder
+		b.WriteString("type Query { id: ID }\ndirective @t(a: Int) repeatable on OBJECT\n")
+		for i := 0; i < n; i++ {
+			b.WriteString("extend type Query @t(a: " + itoa2(i) + ") { f" + itoa2(i) + ": Int }\n")
+		}
+		return b.String()
+	}},
 }
